@@ -62,9 +62,11 @@ void gc_struct_set_field(GCStruct* s, int field_index,
     assert(s != NULL && "GC: NULL struct");
     assert(field_index >= 0 && field_index < s->field_count && "GC: Field index out of bounds");
     
-    /* If old field was a GC object, release it */
-    if (s->field_gc_flags[field_index] && s->field_values[field_index]) {
-        gc_release(s->field_values[field_index]);
+    /* Retain the new value before the old one is released: the old value may be
+     * the new value itself (or the only owner of it) */
+    void *old_value = s->field_gc_flags[field_index] ? s->field_values[field_index] : NULL;
+    if (is_gc_object && value) {
+        gc_retain(value);
     }
     
     /* Set field name if not already set */
@@ -77,9 +79,9 @@ void gc_struct_set_field(GCStruct* s, int field_index,
     s->field_gc_flags[field_index] = is_gc_object ? 1 : 0;
     s->field_types[field_index] = (uint8_t)type;
     
-    /* If new field is a GC object, retain it */
-    if (is_gc_object && value) {
-        gc_retain(value);
+    /* If old field was a GC object, release it */
+    if (old_value) {
+        gc_release(old_value);
     }
 }
 
